@@ -5,7 +5,7 @@
    are universally quantified. The repair flags of the model are the values
    regenerated from chunk.go: drop_stream_on_invalid_chunk,
    first_chunk_validated_before_discard (Gen/GenC15.v). *)
-From DB Require Import Base.Bytes Model.Chunks Proofs.Chunks Proofs.ChunksFrame.
+From DB Require Import Base.Bytes Model.Chunks Proofs.Chunks Proofs.ChunksFrame Proofs.ChunksSplit.
 Open Scope N_scope.
 
 (* a chunk with a foreign deployment id or binary version is ignored: the state is unchanged *)
@@ -131,6 +131,42 @@ Theorem stalled_stream_collected :
     alookup tkey_eqb (tkey_of (t_first td)) (s_temps (tick D V gc_tick timeout st)) = None.
 Proof. exact stalled_stream_collected_gen. Qed.
 Print Assumptions stalled_stream_collected.
+
+(* PARTIAL (split_covers_exactly). Proved for every file, chunk size cs > 0 and file size
+   > 0: the chunk sizes of splitBySnapshotFile add up to the file size, each chunk has
+   1..cs bytes (all but the last exactly cs, so chunk i starts at offset i*cs, where
+   loadChunkData reads it), file chunk ids are 0..cc-1, chunk ids continue from the start
+   id, FileChunkCount/FileSize/Filepath are consistent; and getChunks stamps every chunk
+   with the total number of chunks (a size 0 file panics: get_chunks = None).
+   Missing: chunk ids consecutive across the files of one message, and the byte-level
+   statement (concatenating the loaded slices gives the file) from the slicing laws of D;
+   both are checked by the differential run and the SPLIT monitor on every sender case. *)
+Theorem split_covers_exactly_partial :
+  forall cs, 0 < cs -> forall msg path fsize start sf, 0 < fsize ->
+    let l := split_file cs msg path fsize start sf in
+    let cc := chunk_count cs fsize in
+    nsum (map c_size l) = fsize /\
+    map c_fcid l = nseq cc /\
+    map c_id l = map (N.add start) (nseq cc) /\
+    nlen l = cc /\
+    Forall (fun m => 1 <= c_size m <= cs /\ c_fccount m = cc /\ c_fsize m = fsize /\
+                     c_path m = path /\ c_size m = (if c_fcid m =? cc - 1 then fsize - (cc - 1) * cs else cs) /\
+                     c_hasfi m = (match sf with Some _ => true | None => false end)) l.
+Proof. exact split_file_covers. Qed.
+Print Assumptions split_covers_exactly_partial.
+
+Theorem split_chunk_count_consistent :
+  forall cs, 0 < cs -> forall msg l, get_chunks cs msg = Some l ->
+    Forall (fun m => c_count m = nlen l) l /\
+    (0 < m_fsize msg /\ Forall (fun f => 0 < sf_size f) (m_files msg)).
+Proof. exact get_chunks_count. Qed.
+Print Assumptions split_chunk_count_consistent.
+
+Example split_witness :
+  option_map (map (fun m => (c_id m, c_fcid m, c_size m, c_count m)))
+    (get_chunks 4 (mkSSMsg 1 2 3 100 5 0 [47; 115] 9 [mkSFile [47; 120] 4 1 []] false))
+  = Some [(0, 0, 4, 4); (1, 1, 4, 4); (2, 2, 1, 4); (3, 0, 4, 4)].
+Proof. vm_compute. reflexivity. Qed.
 
 (* path.Base of any Filepath is ".", ".." or "/" (a directory: create fails, save
    errors) or a plain child name without a separator *)
